@@ -11,6 +11,7 @@ import MediaSan.Lemmas.Prog
 import MediaSan.Lemmas.ScanSafe
 import MediaSan.Lemmas.WebpSafe
 import MediaSan.Lemmas.Vp8lSafe
+import MediaSan.Lemmas.WebpTerm
 namespace MediaSan.Props.C09
 open MediaSan MediaSan.Mp4
 
@@ -110,6 +111,29 @@ theorem C09_webp_no_panic (s : Stream) (kind : SkipKind) (cfg : Webp.Config) (si
   | ok x => obtain ⟨a, p⟩ := x; cases a <;> (intro hh; cases hh)
   | parseErr e => intro hh; cases hh
   | ioErr k => intro hh; cases hh
+  | panic st => rw [hr] at h; exact h.elim
+  | outOfFuel => rw [hr] at h; exact h.elim
+
+/-- WebP totality on the ideal cursor (seek-based or strict), for EVERY stream and configuration: the model of
+    webpsan's `sanitize` returns Ok, a parse error or an I/O error — it never panics and never exhausts its loop fuel
+    (a header read from the stream costs 8 bytes that must exist, an ANMF body 16, so the unknown-chunk loops and the
+    frame loop end within len/8 + 2 iterations wherever in the stream they start). -/
+theorem C09_webp_total (s : Stream) (kind : SkipKind) (cfg : Webp.Config) :
+    Webp.sanitize s kind cfg = .ok () ∨ (∃ e, Webp.sanitize s kind cfg = .parseErr e) ∨
+    (∃ k, Webp.sanitize s kind cfg = .ioErr k) := by
+  have hV : Webp.ValidateNP := fun data w h site => Vp8l.validate_np data w h .strict site
+  have h := Webp.sanitizeP_total s kind hV cfg (s.len / 8 + 2) (Webp.fuelOK_default s)
+  unfold Safe at h
+  simp only [Webp.sanitize, Webp.sanitizeWith, run_eq_runF]
+  cases hr : (Webp.sanitizeP cfg (s.len / 8 + 2)).runF (idealOps s kind) 0 with
+  | ok x =>
+    obtain ⟨a, p⟩ := x
+    rw [hr] at h
+    dsimp only at h
+    subst h
+    left; rfl
+  | parseErr e => right; left; exact ⟨e, rfl⟩
+  | ioErr k => right; right; exact ⟨k, rfl⟩
   | panic st => rw [hr] at h; exact h.elim
   | outOfFuel => rw [hr] at h; exact h.elim
 
